@@ -219,6 +219,25 @@ def run(ctx):
         else:
             chk.bad(R1, f'{clsq}.{closer}', f'self.{attr}', f'{clsq} stores an open handle in `{attr}` but `{closer}` no longer closes it', where=f'{ci.module.relpath}:{ci.node.lineno}')
 
+    # the sessions a handle creates are plain instance attributes set in __init__ (so close() reaches every one of them): not properties /
+    # descriptors, and nothing per-thread (threading.local) that a close() from another thread cannot release
+    contc = K.container
+    initc = contc.methods.get('__init__')
+    sess_attrs = []
+    for n in walk_local(initc.node):
+        tgt = n.targets[0] if isinstance(n, ast.Assign) and len(n.targets) == 1 else (n.target if isinstance(n, ast.AnnAssign) else None)
+        if isinstance(tgt, ast.Attribute) and norm(tgt.value) == 'self' and tgt.attr.endswith('_session'):
+            sess_attrs.append(tgt.attr)
+    tl = [n for f2 in prog.all_functions() if f2.cls is contc and not isinstance(f2.node, ast.Lambda) for n in walk_local(f2.node)
+          if isinstance(n, ast.Call) and norm(n.func).split('.')[-1] in ('local',) and 'threading' in norm(n.func) or (isinstance(n, ast.Call) and norm(n.func) in ('local', 'threading.local', 'ContextVar', 'contextvars.ContextVar'))]
+    props = [a for a in ('_operation_session', '_container_session') if a in contc.methods]
+    if props or tl or set(sess_attrs) != {'_operation_session', '_container_session'}:
+        what = props[0] if props else (norm(tl[0]) if tl else f'session attributes {sess_attrs}')
+        chk.bad(R1c, contc.qualname, what, 'the cached sessions are not plain per-handle attributes initialised in __init__ (property / thread-local storage): close() then releases only the '
+                'session of the calling thread, and the SQLite descriptors opened through the handle by other threads stay open', where=f'{contc.module.relpath}:{initc.lineno}')
+    else:
+        chk.ok(R1c, contc.qualname, f'{sorted(sess_attrs)} set in __init__', detail='per-handle attributes; no thread-local / property indirection', nontrivial=False)
+
     # ---------------------------------------------------------------- R1c
     cl = prog.fn('container:Container.close')
     trans = S.trans(cl, depth=2)
